@@ -9,6 +9,11 @@ pub fn run(args: &[String]) {
     let t0 = std::time::Instant::now();
     let mut fc = FastCompiler::new().expect("std");
     eprintln!("std compiled in {:?}", t0.elapsed());
+    // VP_SKIP_PASSES=dce,cse  VP_ASM_MASK=8 : experiment with the cfg hooks
+    let skip: Vec<String> = std::env::var("VP_SKIP_PASSES").map(|s| s.split(',').map(|x| x.to_string()).collect()).unwrap_or_default();
+    let skip_ref: Vec<&str> = skip.iter().map(|s| s.as_str()).collect();
+    sway_ir::pass_manager::verif_hooks::set_skipped_passes(&skip_ref);
+    sway_core::verif_hooks::set_asm_opt_skip_mask(std::env::var("VP_ASM_MASK").ok().and_then(|s| s.parse().ok()).unwrap_or(0));
     for opt in [OptLevel::Opt0, OptLevel::Opt1] {
         let t = std::time::Instant::now();
         match fc.compile(&src, opt) {
